@@ -59,6 +59,10 @@
     in order, each with its own name and the type ITS chain denotes over the shared base type
     (no pointer level, qualifier or name leaks from one declarator into the next), all to the same
     block, and consumes exactly the statement.
+  * `C01_toplevel_variables` (`Theorems/VarDecls.lean`, `TopLevel.lean`): the same statement —
+    `T d1 , d2 , … , dn ;` for any n — through the whole of one iteration of the parse loop on the
+    regenerated rules, dispatch table and keep set: one `on_variable` per declarator, in order,
+    nothing else delivered, the statement consumed exactly, no doc text handed on.
 -/
 import CxxModel.Tables
 import CxxModel.Props.C04
@@ -294,5 +298,63 @@ theorem C01_declaration_statement (env : Env) (hnf : env.faultAt = none) (F D : 
   declarators_variables env hnf F D pt hpt blkId hdr hk rest
 
 end
+
+section
+open P
+
+theorem C01_toplevel_variables (env : Env) (hc : env.cfg = genLexCfg) (hnf : env.faultAt = none) (F D : Nat) (w : World)
+    (first : Tok) (pairs : List (Tok × Tok)) (ds : List (Dtor × DType)) (last : Dtor × DType) (b1 b0 b' : Buf)
+    (blk : Block) (rest : List Block) (hstack : w.stack = blk :: rest) (hk : blk.hdr.kind ≠ .cls) (hmu : w.muted = false)
+    (htok : tokenEofOk env.cfg w.buf = .ok (some first, b1))
+    (hty : first.type = "NAME") (htv : identVal first.value = true)
+    (hall : ∀ p ∈ pairs, p.1.type = "DBL_COLON" ∧ p.2.type = "NAME" ∧ plainVal p.2.value = true)
+    (hy0 : Yields env.cfg b1 (pairs.flatMap (fun p => [p.1, p.2])) b0)
+    (hops : opsHeadOk (firstDtor ds last).ops = true) (hopsv : ∀ o ∈ (firstDtor ds last).ops, o.value ≠ "auto")
+    (hds : ∀ p ∈ ds, p.1.OK (.type (.mk (.name first.value none :: pairs.map (fun p => .name p.2.value none)) none false) false false) p.2 ∧
+      p.1.sep.type = "," ∧ p.1.ops.length + 1 ≤ F)
+    (hlast : last.1.OK (.type (.mk (.name first.value none :: pairs.map (fun p => .name p.2.value none)) none false) false false) last.2)
+    (hsep : last.1.sep.type = ";") (hlen : last.1.ops.length + 1 ≤ F)
+    (hy : Yields env.cfg b0 (ds.flatMap (fun p => p.1.toks) ++ last.1.toks) b')
+    (hF : pairs.length + 2 ≤ F) (hF2 : ds.length + 1 ≤ F) :
+    ∃ (d : Option String) (bD : Buf) (wF : World) (evs : List Event) (doxs : List (Option String)) (blkF : Block),
+      getDoxygen env.cfg env.mcRe w.buf = .ok (d, bD) ∧
+      interp env (mainBody F (core F (D + 1 + 1)) none) w = (wF, .ok (.inl none)) ∧
+      SigEq b' wF.buf ∧ wF.stack = blkF :: rest ∧ blkF.id = blk.id ∧ blkF.hdr = blk.hdr ∧
+      wF.events = w.events ++ evs ∧ doxs.length = ds.length + 1 ∧
+      evs.map (·.kind) = varKinds (ds ++ [last]) doxs ∧ (∀ e ∈ evs, e.stateId = blk.id ∧ e.parentId = rest.head?.map (·.id)) ∧
+      (∀ dd, d = some dd → doxs.head? = some (some dd)) ∧
+      wF.delivered = w.delivered + (ds.length + 1) ∧ wF.anon = w.anon ∧ wF.muted = false ∧ wF.nextId = w.nextId :=
+  toplevel_variables env (by rw [hc]; exact gen_rules_progress) hnf F D w first pairs ds last b1 b0 b' blk rest hstack hk hmu
+    htok hty htv hall hy0 hops hopsv hds hlast hsep hlen hy hF hF2
+
+end
+
+/-! non-vacuity of `C01_toplevel_variable`: a stream holding `T /* c */ * const x ;` meets its stream
+    hypotheses, `T` and `x` are identifiers, and the declarator denotes `T * const` -/
+private def tkv (ty v : String) : Tok := { type := ty, value := v, loc := default, sidx := 0 }
+
+private theorem tokenEofOk_pop' (cfg : LexCfg) (b : Buf) (t : Tok) (rest : List Tok)
+    (h : popSignificant isDiscard b.tokbuf = some (t, rest)) :
+    tokenEofOk cfg b = .ok (some t, { b with tokbuf := rest }) := by
+  simp only [tokenEofOk, fuelFor, nextTok, h]
+
+example (cfg : LexCfg) (n : PQName) :
+    let B : List Tok → Buf := fun l => { tokbuf := l, lex := { rest := [] }, bounded := true }
+    tokenEofOk cfg (B [tkv "NAME" "T", tkv "WHITESPACE" " ", tkv "COMMENT_MULTILINE" "/* c */", tkv "*" "*", tkv "const" "const",
+        tkv "WHITESPACE" " ", tkv "NAME" "x", tkv ";" ";"]) =
+      .ok (some (tkv "NAME" "T"), B [tkv "WHITESPACE" " ", tkv "COMMENT_MULTILINE" "/* c */", tkv "*" "*", tkv "const" "const",
+        tkv "WHITESPACE" " ", tkv "NAME" "x", tkv ";" ";"]) ∧
+    Yields cfg (B [tkv "WHITESPACE" " ", tkv "COMMENT_MULTILINE" "/* c */", tkv "*" "*", tkv "const" "const",
+        tkv "WHITESPACE" " ", tkv "NAME" "x", tkv ";" ";"]) [tkv "*" "*", tkv "const" "const"]
+      (B [tkv "WHITESPACE" " ", tkv "NAME" "x", tkv ";" ";"]) ∧
+    tokenEofOk cfg (B [tkv "WHITESPACE" " ", tkv "NAME" "x", tkv ";" ";"]) = .ok (some (tkv "NAME" "x"), B [tkv ";" ";"]) ∧
+    tokenEofOk cfg (B [tkv ";" ";"]) = .ok (some (tkv ";" ";"), B []) ∧
+    identVal "T" = true ∧ identVal "x" = true ∧ opsHeadOk [tkv "*" "*", tkv "const" "const"] = true ∧
+    applyPtrOps (.type n false false) ([tkv "*" "*", tkv "const" "const"].map (·.type)) =
+      some (.ptr (.type n false false) true false) := by
+  refine ⟨tokenEofOk_pop' cfg _ _ _ (by decide), ?_, tokenEofOk_pop' cfg _ _ _ (by decide), tokenEofOk_pop' cfg _ _ _ (by decide),
+    by decide, by decide, by decide, by simp [applyPtrOps, ptrStep, P.isRefLike, P.setConst, tkv]⟩
+  exact .cons (tokenEofOk_pop' cfg _ _ [tkv "const" "const", tkv "WHITESPACE" " ", tkv "NAME" "x", tkv ";" ";"] (by decide))
+    (.cons (tokenEofOk_pop' cfg _ _ [tkv "WHITESPACE" " ", tkv "NAME" "x", tkv ";" ";"] (by decide)) (.nil _))
 
 end Cxx
